@@ -45,8 +45,11 @@ Fixpoint stat_from (f : fsmap) (cur : str) (comps : list str) : st :=
 Definition comps_of (p : str) : list str :=
   if is_dot_path p then [] else split_on c_slash p.
 
-(* os.Stat on a cleaned relative path *)
-Definition stat (f : fsmap) (p : str) : st := stat_from f [c_dot] (comps_of p).
+(* os.Stat on a cleaned relative path.  Go rejects a path containing NUL before any system call
+   (syscall.BytePtrFromString: EINVAL), whatever exists; an over-long component is refused by the
+   kernel only when the walk reaches it *)
+Definition stat (f : fsmap) (p : str) : st :=
+  if contains (ch 0) p then StErr else stat_from f [c_dot] (comps_of p).
 
 (* os.MkdirAll: create the missing directories top-down; a component that is a file
    or that the OS refuses stops it with an error after the ones above were made *)
